@@ -186,9 +186,17 @@ class C09(Machine):
             probes[n] = probes.get(n, 0) + k
 
         for sess in plan["meta"].get("sessions", []):
-            ids = [c["start"] for c in sess["calls"]] + [p for c in sess["calls"] for p in c["pulls"]]
-            if any(i not in by_id for i in ids):
+            # the shrinker may drop whole calls (start + pulls) or trailing pulls of a call: the
+            # session is what is left of it (a call with fewer pulls than blocks counts as abandoned)
+            calls = []
+            for c in sess["calls"]:
+                if c["start"] not in by_id:
+                    continue
+                c = dict(c, pulls=[p for p in c["pulls"] if p in by_id])
+                calls.append(c)
+            if not calls:
                 continue
+            sess = dict(sess, calls=calls)
             scheme, prm, o = sess["scheme"], sess["prm"], sess["obj"]
             nB = prm["B"] // 8
             kind = scheme
@@ -213,6 +221,8 @@ class C09(Machine):
                     continue
                 if dirty:
                     break
+                if finished and ck in ("cont", "final"):
+                    break       # (only through shrinking: the reset in between was dropped)
                 st = step_by_id[call["start"]]
                 piece = bytes.fromhex(st["args"][0]["b"])
                 kw = st.get("kw", {})
